@@ -47,6 +47,7 @@ func c13Body(c *vk.Ctx, cs hCase) {
 	defer w.s.close()
 	tracks := map[string]*c13Track{} // by wire ID
 	advertised := false
+	advertisedBy := map[string]bool{} // peers whose summary vector the node has got since its last start
 	restarted := false
 	nt := false
 	failedThenTick := false
@@ -71,6 +72,11 @@ func c13Body(c *vk.Ctx, cs hCase) {
 			w.s.logf("%s", w.step)
 			c05ProphetAdvertise(w, "dtn://faraway/inbox")
 			advertised = true
+			for _, n := range w.names {
+				if w.s.connected(n) {
+					advertisedBy[n] = true
+				}
+			}
 			applied = true
 		case "broadcast":
 			if cs.Algo != "dtlsr" {
@@ -119,6 +125,7 @@ func c13Body(c *vk.Ctx, cs hCase) {
 			}
 			if applied && op.Op == "restart" {
 				advertised = false
+				advertisedBy = map[string]bool{} // the peers' vectors are kept in memory only
 				restarted = true
 			}
 		}
@@ -203,7 +210,7 @@ func c13Body(c *vk.Ctx, cs hCase) {
 					case "dtlsr":
 						expect = t.broadcast
 					case "prophet":
-						expect = advertised && !t.broadcast
+						expect = advertised && advertisedBy[p] && !t.broadcast
 						if pr, ok := w.s.core.routing.(*Prophet); ok && expect {
 							// every vector a peer sends also raises the node's own predictability for the advertised
 							// destination (transitivity accumulates): after many advertisements it passes the peers' 0.9,
